@@ -165,6 +165,17 @@ func init() {
 		d.W.Event(d.Custom[1]).Emit(h)
 	})
 
+	addMisuse("stale", "Event.Emit (whatever observers are registered)", func(d *Drv, op *Op, h, _ ecs.Entity) {
+		if h.IsZero() {
+			panic(skipMisuse{})
+		}
+		// an event type nobody observes: the handle is checked all the same
+		var reg ecs.EventRegistry
+		reg.NewEventType()
+		reg.NewEventType()
+		d.W.Event(reg.NewEventType()).Emit(h)
+	})
+
 	// ---- valid handle, invalid request. op.Add/op.Rem carry the components chosen by the generator.
 	addMisuse("dup", "Unsafe.Add(dup)", func(d *Drv, op *Op, h, _ ecs.Entity) { d.U.Add(h, d.ids(op.Add)...) })
 	addMisuse("dup", "Map.Add(dup)", func(d *Drv, op *Op, h, _ ecs.Entity) {
@@ -460,6 +471,25 @@ func init() {
 	})
 	addMisuse("debugguard", "Unsafe.GetUnchecked missing component", func(d *Drv, op *Op, h, _ ecs.Entity) {
 		sink = int64(uintptr(d.U.GetUnchecked(h, d.ID[op.Rem[0]])))
+	})
+	addMisuse("debugguard", "MapN.Set with a later component missing", func(d *Drv, op *Op, h, _ ecs.Entity) {
+		// a tuple whose first component the entity has and one of whose later components it lacks: the call is rejected
+		// in every build, and nothing may have been written when it is (the sweep after the op compares all values)
+		mask := SetOf(op.Add...)
+		for k := range typed.Tuples {
+			ti := (k + op.N) % len(typed.Tuples)
+			cs := typed.Tuples[ti].Comps
+			if len(cs) < 2 || !mask.Has(cs[0]) || u.Types[cs[0]].ZeroSize || mask.Contains(SetOf(cs...)) {
+				continue
+			}
+			vals := make([]int64, len(cs))
+			for j := range vals {
+				vals[j] = 424242
+			}
+			d.TMap(ti).Set(h, vals)
+			return
+		}
+		panic(skipMisuse{})
 	})
 	addMisuse("debugguard", "MapN.GetRelation missing component", func(d *Drv, op *Op, h, _ ecs.Entity) {
 		// a tuple none of whose components the entity has
